@@ -93,6 +93,10 @@ Section PsiProofs.
   Local Notation infos_of := (infos_of topic half).
   Local Notation rxs := (rxs topic half).
   Local Notation expect := (expect topic half).
+  Local Notation shares_common := (shares_common topic).
+  Local Notation in_scope := (in_scope topic).
+  Local Notation in_scope_of := (in_scope_of topic).
+  Local Notation outcome_err := (outcome_err topic).
 
   (** * Sets as lists *)
   Lemma mem_In t l : mem t l = true <-> In t l.
@@ -200,14 +204,11 @@ Section PsiProofs.
     - apply IH; assumption.
   Qed.
 
-  Definition shares_common (n : node) (common : list topic) : Prop :=
-    exists t, In t (ntopics topic n) /\ In t common.
-
   Lemma by_topics_In n ts b :
     In n (node_infos_by_topics topic teqb ts b) <->
     In n b /\ nstale topic n = false /\ shares_common n ts.
   Proof.
-    unfold Psi.node_infos_by_topics, shares_common.
+    unfold Psi.node_infos_by_topics, Psi.shares_common.
     rewrite filter_In, andb_true_iff, negb_true_iff, existsb_exists.
     split.
     - intros [Hin [Hs [t [Ht Hm]]]]. apply mem_In in Hm. eauto 6.
@@ -383,12 +384,6 @@ Section PsiProofs.
 
   (** A party that restricts sharing sends node infos only of itself and of non-stale nodes of its
       own address book that subscribe to a topic common to both peers. *)
-  Definition in_scope (p : party) (other : party) (id tr : N) : Prop :=
-    exists n, In n (p_book topic p) /\ nid topic n = id /\ ntransport topic n = Some tr /\
-      (id = p_me topic p \/
-       (nstale topic n = false /\
-        exists t, In t (ntopics topic n) /\ In t (p_topics topic p) /\ In t (p_topics topic other))).
-
   Theorem restricted_sharing_scope pa pb sa sb :
     (p_restricted topic pa = true ->
      forall m id tr, In m (alice_sent pa pb sa sb) -> In (id, tr) (infos_of m) -> in_scope pa pb id tr) /\
@@ -443,12 +438,6 @@ Section PsiProofs.
   Qed.
 
   (** * The protocol state machine: any peer, any stream content *)
-
-  Definition outcome_err (o : outcome topic) : option err :=
-    match o with
-    | Done _ => None
-    | Fail e => Some e
-    end.
 
   (** Alice succeeds exactly when her stream delivers [S2, Nodes] in this order; a message of
       another kind at either position is [UnexpectedMessage], a closed or failing stream is
@@ -549,10 +538,6 @@ Section PsiProofs.
 
   (** ... and under restricted sharing the node infos it sends are limited to itself and
       non-stale nodes of a topic it reported as common (a subset of its own topics). *)
-  Definition in_scope_of (p : party) (common : list topic) (id tr : N) : Prop :=
-    exists n, In n (p_book topic p) /\ nid topic n = id /\ ntransport topic n = Some tr /\
-      (id = p_me topic p \/ (nstale topic n = false /\ shares_common n common)).
-
   Theorem alice_restricted_scope_any_peer p sa inc r :
     p_restricted topic p = true -> snd (alice_run p sa inc) = Done r ->
     forall m id tr, In m (fst (alice_run p sa inc)) -> In (id, tr) (infos_of m) ->
